@@ -20,7 +20,7 @@ MANIFEST = dict(
     cat="model_checking", design="5/C10",
     text="Segmentation.tla (non-deterministic: a boundary may be placed after any base whose last k bases are A/C/G/T and whose "
          "canonical k-mer is a splitter; the next segment starts k bases back) is model-checked exhaustively for all contigs over "
-         "{A,C,G,T,N} up to length 5 (quick) / 6-7 (thorough), k=1..3(4), all subsets of the occurring canonical k-mers and all "
+         "{A,C,G,T,N} up to length 4-5 (quick: k=1,2 len<=4, k=3 len<=5) / 6 (thorough, k=1..4), all subsets of the occurring canonical k-mers and all "
          "allowed boundary placements: first segment starts at base 0, last ends at the last base, each later segment starts exactly "
          "k before the previous end and has >= k bases, drop-k-and-concatenate = contig, each internal boundary k-mer is a splitter "
          "recorded as back of one / front of the next segment, no splitter occurrence or len<k => one segment with both k-mers "
